@@ -4,4 +4,9 @@
 #define VERIF_SPECS_H
 #include "spec_half.h"
 #include "spec_int.h"
+#include "spec_pow2.h"
+#include "spec_ulp.h"
+#include "spec_pack.h"
+#include "spec_common.h"
+#include "spec_constants.h"
 #endif
